@@ -714,7 +714,7 @@ Lemma unauthenticated_nonvacuous_l :
   let rq := mkRequest 0 0 None (AJws (mkAssertion (SPriv 999) ES256 11 (Some 1) 1 [AudTokenURL] (Some 60%Z) None None true))
               true None true None in
   let w := mkWorld (Config.base_config POpenID) [] in
-  let st := mkStore [mkClient 1 false [GClientCredentials] [] [] "" CibaNone false false false false false false false 0 false] [] [] in
+  let st := mkStore [mkClient 1 false [GClientCredentials] [] [] "" CibaNone false false false false false false false 0 false None] [] [] in
   authenticated ex_cfg CtxToken [ex_client] rq = None /\
   agrees CtxToken [ex_client] w st /\
   unauthenticated w st (cred_of ex_cfg CtxToken [ex_client] rq).
